@@ -1068,6 +1068,9 @@ impl Probe {
             .collect();
         // The other host may list its records in any order: sort them as ours are.
         incoming.sort_by(|a, b| a.compare(b.as_ref()));
+        // A record listed twice (e.g. under two spellings of the name, as our own
+        // looped-back probe does for 'Box.local.' and 'box.local.') counts once.
+        incoming.dedup_by(|a, b| a.compare(b.as_ref()) == cmp::Ordering::Equal);
         /*
         RFC 6762 section 8.2: https://datatracker.ietf.org/doc/html/rfc6762#section-8.2
         ...
